@@ -342,7 +342,9 @@ func (vc *VC) findLoops() {
 	}
 	for _, c := range vc.decl.Clauses {
 		if c.Loop >= len(vc.loops) {
-			panic(fmt.Errorf("#binding: contract mentions loop %d, function has %d loops", c.Loop, len(vc.loops)))
+			// a loop annotation without its loop (the body was restructured): invariants are proof hints,
+			// not claims, so the rest of the contract is still checked against the new body
+			vc.assumes[fmt.Sprintf("%s: the contract annotates loop %d, which the current body does not have (annotation ignored)", vc.key, c.Loop)] = true
 		}
 	}
 }
@@ -509,6 +511,8 @@ func (vc *VC) loopHead(li *loopInfo) {
 			if rg, ok := nx.Iter.(*ssa.Range); ok {
 				if _, isMap := rg.X.Type().Underlying().(*types.Map); isMap {
 					li.seen = "R." + rg.Name() + ".seen"
+				} else {
+					li.seen = "R." + rg.Name() + ".pos" // string range: "rangepos" names the byte position reached
 				}
 			}
 		}
@@ -546,6 +550,7 @@ func (vc *VC) loopHead(li *loopInfo) {
 		if c == compNext {
 			n := vc.fresh("next", sInt)
 			vc.assume(app(">=", n, vc.next(vc.cur)))
+			vc.assume(app(">=", n, vc.next(vc.entry)))
 			vc.cur.comps[c] = n
 			continue
 		}
@@ -683,6 +688,7 @@ func (vc *VC) loopWrites(li *loopInfo) ([]*ssa.Alloc, []string) {
 						compSet["R."+rg.Name()+".seen"] = true
 					} else {
 						compSet["R."+rg.Name()+".pos"] = true
+						compSet["R."+rg.Name()+".k"] = true
 					}
 				}
 			case *ssa.Range:
@@ -1033,7 +1039,12 @@ func (vc *VC) instr(in ssa.Instruction) {
 		vc.mapUpdate(x)
 	case *ssa.Panic:
 		k := vc.ordinal("safe:panic")
-		vc.oblige("safe", fmt.Sprintf("panic@%d", k), "false", x.Pos())
+		if conds := vc.panicConds(); len(vc.inl) == 0 && len(conds) > 0 {
+			// a declared panic: reached only under (one of) the declared conditions, evaluated on entry
+			vc.oblige("panics", fmt.Sprintf("only-if-declared@%d", k), or(conds...), x.Pos())
+		} else {
+			vc.oblige("safe", fmt.Sprintf("panic@%d", k), "false", x.Pos())
+		}
 	case *ssa.Return:
 		vc.ret(x)
 	case *ssa.If:
@@ -1795,6 +1806,9 @@ func (vc *VC) convert(x *ssa.Convert) {
 		if b, ok := et.Underlying().(*types.Basic); ok && b.Kind() == types.Int32 {
 			lenFn = "ys.x.runeLen" // the same function as runeLen(s) in contracts
 			vc.reg.decl("ys.x.runeLen", "(declare-fun ys.x.runeLen (String) Int)")
+			// element k of []rune(s) is runeAt(s, k), the rune the k-th iteration of a range loop over s yields
+			vc.reg.decl("ys.x.runeAt", "(declare-fun ys.x.runeAt (String Int) Int)")
+			vc.reg.decl(fn+".at", fmt.Sprintf("(assert (forall ((s String) (k Int)) (! (= (select (%s s) k) (ys.x.runeAt s k)) :pattern ((select (%s s) k)))))", sym(fn), sym(fn)))
 		} else {
 			vc.reg.decl(lenFn, fmt.Sprintf("(declare-fun %s (String) Int)", lenFn))
 		}
@@ -1822,6 +1836,18 @@ func (vc *VC) convert(x *ssa.Convert) {
 		}
 		panic(unsupported(fmt.Sprintf("conversion %s -> %s", from, to)))
 	}
+}
+
+// panicConds: the conditions (over the entry state) under which the contract declares a panic.
+func (vc *VC) panicConds() []Term {
+	var out []Term
+	for _, c := range vc.decl.Clauses {
+		if c.Kind == "panics" {
+			ectx := vc.ctx(vc.entry, vc.entry)
+			out = append(out, ectx.formula(c.E))
+		}
+	}
+	return out
 }
 
 func isFloat32(t types.Type) bool {
@@ -1906,6 +1932,13 @@ func (vc *VC) ret(x *ssa.Return) {
 	ctx := vc.ctx(vc.cur, vc.entry)
 	ctx.bindResults(rs)
 	vc.retReach = append(vc.retReach, vc.curReach)
+	for i, c := range vc.decl.Clauses {
+		if c.Kind == "panics" {
+			// the function returns only when the declared panic condition does not hold: it panics exactly then
+			ectx := vc.ctx(vc.entry, vc.entry)
+			vc.oblige("panics", fmt.Sprintf("returns-only-if-not:%s@ret%d", labelOr(c.Label, i), k), not(ectx.formula(c.E)), x.Pos())
+		}
+	}
 	for i, c := range vc.decl.Clauses {
 		if c.Kind == "ensures" {
 			if strings.HasPrefix(c.Label, "assumed:") {
